@@ -92,7 +92,8 @@ def subLine (kind ty : String) (rest : List String) : String :=
               | "stride" => spanStrideM T rr.exts rr.strs
               | _ => spanLRM T rr.exts)
             let al ← subAlias T rr
-            pure (s!"off={rr.off} ext={fmtL rr.exts} kind={rr.kind} str={fmtL rr.strs} span={sp} l1off={r1.off} l1span={sp1} l2off={r2.off} " ++ showL (pure al))
+            -- the C++ adds the two offsets as size_t values (modulo 2^64; only inadmissible lines can wrap)
+            pure (s!"off={ITy.u64.wrap rr.off} ext={fmtL rr.exts} kind={rr.kind} str={fmtL rr.strs} span={sp} l1off={r1.off} l1span={sp1} l2off={r2.off} " ++ showL (pure al))
           match r with
           | .ok s => s
           | .error e => ubStr e
